@@ -92,7 +92,10 @@ SentWire(i) == Trace[sentAt[i]].wire
 
 HandleEvent ==
   LET c == Ev.c IN
-  IF c \notin CIds \/ cur[c] = -1 THEN MarkBadC(l, "handler-invoked-for-unknown-peer") /\ UNCHANGED x
+  \* a ResponseWriter answers the client whose request it was created for, also when the reply is written after the
+  \* handler has returned (c0: the peer it named on entry, c: when the reply is written)
+  IF Ev.c0 # Ev.c THEN MarkBadC(l, "response-writer-changed-peer") /\ UNCHANGED x
+  ELSE IF c \notin CIds \/ cur[c] = -1 THEN MarkBadC(l, "handler-invoked-for-unknown-peer") /\ UNCHANGED x
   ELSE IF ~Pooled(Ev) THEN
     \* stream transports: one connection per client, served in order: the request is the one the client is waiting for
     LET i == cur[c] IN
